@@ -71,6 +71,18 @@ pub fn universes(tier: Tier) -> Vec<GenParams> {
             }
         }
     }
+    // multi-homed nameserver hosts (two addresses each), and a zone served by
+    // the sibling zone's own nameserver
+    for depth in 1..=2usize {
+        for s in [NsStyle::InZoneGlue, NsStyle::InParent, NsStyle::Sibling, NsStyle::SiblingApexNs] {
+            for send_additional in [true, false] {
+                let mut p = GenParams::simple(depth, s, 1);
+                p.send_additional = send_additional;
+                p.families = vec![Family::V4Two; depth + 2];
+                out.push(p);
+            }
+        }
+    }
     out
 }
 
@@ -280,6 +292,7 @@ pub fn params_from_json(v: &Value) -> GenParams {
         "Dual" => Family::Dual,
         "V6Mapped" => Family::V6Mapped,
         "DualMapped" => Family::DualMapped,
+        "V4Two" => Family::V4Two,
         _ => Family::V4,
     };
     GenParams {
